@@ -437,6 +437,13 @@ probe(i, j)"""
         locs = ["fs", "l2", "fi"][:nloc]
         body = "probe(%s)\n" % ", ".join(["v"] + locs) + "".join("%s = v\n" % l for l in locs)
         scope.append(("v = 0\n" if outer else "") + "for v in %s {\n%s}\nprobe(%s)" % (it, body, ", ".join(["v"] + locs)))
+    # the loop's own scope exists whatever clauses are present: a name first assigned by ANY clause of a three-clause for (also when
+    # the init clause is absent) is gone after the loop; reads after the loop see the point's key or nil
+    for init, cond, post in itertools.product(["", "i = 0", "fs = 0"], ["", "n < 3"], ["", "last = n", "fi = n", "n = n + 1"]):
+        scope.append("n = 0\nfor %s; %s; %s {\nn = n + 1\nif n > 3 { break }\n}\nprobe(n, i, last, fi, fs)" % (init, cond, post))
+    for t in ["n = 0\nfor ; n < 2; q = n {\nn = n + 1\nprobe(q)\n}\nprobe(q)\nfor ; n < 4; q = n {\nn = n + 1\nprobe(q)\n}",
+              "for ;; z = 1 {\nif z { break }\n}\nprobe(z)", "if true {\nfor ; nosuch == nil; nosuch = 1 { }\nprobe(nosuch)\n}\nprobe(nosuch)"]:
+        scope.append(t)
     # an assignment updates the nearest variable of that name whatever the value is (nil, zero, empty): the variable stays a variable
     for val in ["nil", "0", '""', "[]", "{}", "false", "nosuch", "q.r"]:
         scope.append("x = 1\nif true {\nx = %s\nprobe(x)\nx = 2\n}\nprobe(x)" % val)
@@ -540,6 +547,15 @@ def gen_use(quick, seed):
                                    ('probe(0)\nuse("b.p")', 'use("c.p")', 'add_key(kq, 1 + nil)'), ('use("b.p")', "q = 1 + nil", "probe(1)"),
                                    ('use("b.p")\nuse("c.p")', "probe(1)", "q = 1 + nil")]):
         out.append(ps("use:first:%d" % i, m, pt=STD_PT, extra={"b.p": b, "c.p": c}, tag="use() at the very start of a script; callee fails"))
+    # use() in a loop body after a statement that contains break / continue (in a branch not taken, or taken on another round)
+    bb = {"b.p": "add_key(n, 1)\nprobe(n)", "c.p": "probe(3)\nq = 1 + nil"}
+    for i, t in enumerate(['for v in [1, 2, 3] {\nif v == 2 { continue }\nuse("b.p")\nprobe(v)\n}\nprobe(9)',
+                           'for i = 0; i < 3; i = i + 1 {\nif i == 5 { break }\nuse("b.p")\n}\nprobe(9)',
+                           'for v in [1] {\nif v == 2 { break } elif v == 1 {\nprobe(1)\nuse("b.p")\n} else {\nuse("c.p")\n}\n}\nprobe(9)',
+                           'for v in [1, 2] {\nif v == 1 { continue }\nuse("c.p")\nprobe(v)\n}\nprobe(9)',
+                           'for ;; {\nif nosuch { continue }\nuse("b.p")\nbreak\n}\nfor v in [1] {\nfor w in [1] { if w == 2 { break } }\nuse("b.p")\n}',
+                           'if fi {\nfor v in [1] {\nif v == 2 { continue } else { probe(2) }\nif true {\nuse("b.p")\n}\n}\n}']):
+        out.append(ps("use:loopctl:%d" % i, t, pt=STD_PT, extra=bb, tag="use() after a conditional break / continue in a loop body"))
     out.append(ps("use:twice", 'use("b.p")\nuse("b.p")\nprobe(n)', pt=STD_PT, extra={"b.p": "add_key(n, 1)\nprobe(n)"}, tag="use twice"))
     out.append(ps("use:loop", 'for i = 0; i < 3; i = i + 1 {\nuse("b.p")\n}\nprobe(i)', pt=STD_PT,
                   extra={"b.p": "for j in [1, 2] {\nif j == 2 { exit() }\nprobe(j)\n}\nprobe(99)"}, tag="use in a loop, exit in callee loop"))
